@@ -96,6 +96,24 @@ func (i *interpreter) readerContent(r iface, consume bool) (value, bool) {
 		}
 		return rest, true
 	}
+	// a struct that only wraps a known reader (embedded as its first field, Read promoted)
+	if pt, ok := types.Unalias(r.t).(*types.Pointer); ok {
+		if st, ok := pt.Elem().Underlying().(*types.Struct); ok && st.NumFields() >= 1 && st.Field(0).Embedded() {
+			ms := i.prog.MethodSets.MethodSet(r.t)
+			for k := 0; k < ms.Len(); k++ {
+				if sel := ms.At(k); sel.Obj().Name() == "Read" && len(sel.Index()) > 1 && sel.Index()[0] == 0 {
+					if pv, _ := r.v.(*value); pv != nil {
+						inner := (*pv).(structure)[0]
+						ft := st.Field(0).Type()
+						if itf, isI := inner.(iface); isI {
+							return i.readerContent(itf, consume)
+						}
+						return i.readerContent(iface{t: ft, v: inner}, consume)
+					}
+				}
+			}
+		}
+	}
 	return nil, false
 }
 
